@@ -7,7 +7,7 @@ META = {
     'technique': 'Lean 4 theorems on models of packagejson.Write/Read (section cascade, alias syntax, gjson path escaping) and of '
                  'generatePropertyPatches (checked slices); correspondence of both models, and of an abstract model of the pom.xml writer '
                  '(buildPatches, origins, property patches), with the real ReadWriter.Read/Write on generated manifests',
-    'design_ref': 'DESIGN.md §5 C13',
+    'design_ref': 'DESIGN.md §4 (section of C13), §5 (defects), §7 (seeded changes)',
     'text': 'Kernel-checked, unbounded: (npm) for documents with unique keys and well-formed updates a successful Write yields exactly '
             'substitute(requirements, updates) on re-Read, keeps keys/order and every unaddressed entry, is the identity on no updates, and never '
             'succeeds silently on a key that is present; Read loses no entry of the three sections (a requirement is keyed by package and alias: C13_npm_read_complete, for every document); the escaped path component is parsed back by gjson as the literal key; on the span model of the file the output is the input with '
